@@ -1075,7 +1075,7 @@ def run(ctx):
     q = ctx.quick()
     lim3, lim4 = (6, 6) if q else (6, 24)
     mapping_schedules(ctx, rng, 'a', n_cells=18, chunk_size=5, n_processors=4, limit=lim3)   # files 0_5, 10_15, 15_18, 5_10: name order != row order
-    shared_list_schedules(ctx, rng, 'a', n_cells=9, chunk_size=3, limit=lim3)
+    shared_list_schedules(ctx, rng, 'a', n_cells=11, chunk_size=3, limit=lim3)   # 4 workers: an order with both ends in place exists
     if not q:
         mapping_schedules(ctx, rng, 'b', n_cells=12, chunk_size=3, n_processors=4, limit=lim4)
         mapping_schedules(ctx, rng, 'c', n_cells=10, chunk_size=4, n_processors=2, limit=6)   # 3 chunks, 2 at a time
